@@ -129,7 +129,10 @@ func cloneW(n *bridge.WNode) *bridge.WNode {
 }
 
 // applyEdit applies one structural edit; ok=false if it does not apply to the real records.
-func applyEdit(t *wmpt.WeightedMerkleTrie, recs []*bridge.WNode, e PEdit) ([]*bridge.WNode, bool) {
+func applyEdit(t *wmpt.WeightedMerkleTrie, recs []*bridge.WNode, e PEdit, S uint64) ([]*bridge.WNode, bool) {
+	if S == 0 {
+		S = 1
+	}
 	at := func(i int) *bridge.WNode {
 		if i < 1 || i > len(recs) {
 			return nil
@@ -139,11 +142,11 @@ func applyEdit(t *wmpt.WeightedMerkleTrie, recs []*bridge.WNode, e PEdit) ([]*br
 	switch e.E {
 	case "reweight":
 		n := at(e.I)
-		if n == nil || n.Kind != 'B' || n.Kids[e.J] == nil || n.Kids[e.K] == nil || n.Kids[e.J].Weight <= uint64(e.D) {
+		if n == nil || n.Kind != 'B' || n.Kids[e.J] == nil || n.Kids[e.K] == nil || n.Kids[e.J].Weight <= uint64(e.D)*S {
 			return recs, false
 		}
-		n.Kids[e.J].Weight -= uint64(e.D)
-		n.Kids[e.K].Weight += uint64(e.D)
+		n.Kids[e.J].Weight -= uint64(e.D) * S
+		n.Kids[e.K].Weight += uint64(e.D) * S
 	case "swap":
 		n := at(e.I)
 		if n == nil || n.Kind != 'B' {
@@ -155,7 +158,7 @@ func applyEdit(t *wmpt.WeightedMerkleTrie, recs []*bridge.WNode, e PEdit) ([]*br
 		if n == nil || (n.Kind != 'S' && n.Kind != 'V') {
 			return recs, false
 		}
-		n.Weight = uint64(e.J)
+		n.Weight = uint64(e.J) * S
 	case "setval":
 		n := at(e.I)
 		if n == nil || n.Kind != 'V' {
@@ -209,7 +212,7 @@ func applyEdit(t *wmpt.WeightedMerkleTrie, recs []*bridge.WNode, e PEdit) ([]*br
 		}
 		recs = append(append([]*bridge.WNode(nil), recs[:e.I-1]...), v)
 	case "splice":
-		other, _ := honestRecords(t, uint64(e.J))
+		other, _ := honestRecords(t, (uint64(e.J)-1)*S+1)
 		if e.I < 1 || e.I > len(recs)+1 || e.K < 1 || e.K > len(other) {
 			return recs, false
 		}
@@ -281,21 +284,35 @@ func RunProofPlan(w *tr.Writer, st *PStats, tid int, p PPlan) {
 	}
 	// the prover's trie rotates over in-memory / committed at a collapse level / re-opened from storage
 	mode := tid % 9
-	t := buildTrieMode(entries, mode)
+	// real weights are the plan's weights times a scale (see wrun.scale): intervals, blocks and tampered weights stay multiples
+	// of it, so the plan's small numbers decide every comparison the verifier makes; plans that pass a hash preimage off as a
+	// value record (its weight is then arbitrary) run unscaled
+	S := []uint64{1, 1, 1000, 1 << 20, 1<<33 + 7}[tid%5]
+	for _, e := range p.Edits {
+		if e.E == "imitate" {
+			S = 1
+		}
+	}
+	scaled := make([]pentry, len(entries))
+	for i, e := range entries {
+		scaled[i] = pentry{e.ab, e.val, e.w * S}
+	}
+	block := (p.Block-1)*S + 1 + []uint64{0, S - 1, S / 2}[tid%3]
+	t := buildTrieMode(scaled, mode)
 	root := append([]byte(nil), t.Root()...)
-	recs, honest := honestRecords(t, p.Block)
+	recs, honest := honestRecords(t, block)
 	if recs == nil {
 		// the prover's own output is unusable for editing: submit it as it is, as the honest proof it claims to be
 		ev := map[string]any{"tid": tid, "op": "proof", "entries": entriesJSON(entries), "block": p.Block, "nedits": 0,
 			"reweighted": false, "imitated": false, "applied": true, "mforged": false, "kind": "honest-unparsed", "mode": mode}
-		verifyOutcome(ev, root, p.Block, honest)
+		verifyOutcome(ev, root, block, honest)
 		emitProof(w, st, ev, fmt.Sprint(len(entries), p.Block, "unparsed"))
 		return
 	}
 	applied := true
 	for _, e := range p.Edits {
 		var ok bool
-		recs, ok = applyEdit(t, recs, e)
+		recs, ok = applyEdit(t, recs, e, S)
 		applied = applied && ok
 	}
 	proof := honest
@@ -314,7 +331,7 @@ func RunProofPlan(w *tr.Writer, st *PStats, tid int, p PPlan) {
 			ev["imitated"] = true
 		}
 	}
-	verifyOutcome(ev, root, p.Block, proof)
+	verifyOutcome(ev, root, block, proof)
 	emitProof(w, st, ev, fmt.Sprint(len(entries), p.Block, kinds))
 }
 
@@ -427,7 +444,7 @@ func RunProofRandom(w *tr.Writer, st *PStats, tid *int, r *rand.Rand) {
 				break
 			}
 			i := 1 + r.Intn(len(recs))
-			if nr, ok := applyEdit(t, recs, PEdit{E: "imitate", I: i}); ok {
+			if nr, ok := applyEdit(t, recs, PEdit{E: "imitate", I: i}, 1); ok {
 				proof = encodeRecords(nr)
 				imitated = true
 			} else {
